@@ -68,7 +68,7 @@ import (
 func init() {
 	Register(&Spec{
 		ID: "C20", Level: "exploration",
-		Rule: "case 0 enumerates exhaustively: every .proto under /repo/proto/irismod (file, top-level messages/enums/services present in both registries), every irismod file descriptor of the gogoproto registry against the protobuf-go global registry after dropping file-level options and source info (messages, fields, numbers, types, options, services), every Msg service input (interface-registry registration, signer option leads to an address string, GetSigners returns the declared field). Cases >=1 generate values from the descriptors (modes empty/zero/populated/maxima/random, nested, Any, repeated, maps, oneofs) and round-trip them pulsar->gogo->pulsar->gogo comparing bytes; non-trivial = a comparison or round trip that was actually evaluated; distinct = distinct (message type, generation mode, relation)",
+		Rule: "case 0 enumerates exhaustively: every .proto under /repo/proto/irismod (file, top-level messages/enums/services present in both registries), every irismod file descriptor of the gogoproto registry against the protobuf-go global registry after dropping file-level options and source info (messages, fields, numbers, types, options, services), every Msg service input (interface-registry registration, signer option leads to an address string, GetSigners returns the declared field). Cases >=1 generate values from the descriptors (modes empty/zero/populated/maxima/random, nested, Any, repeated, maps, oneofs) and round-trip them pulsar->gogo->pulsar->gogo comparing bytes; non-trivial = a comparison or round trip that was actually evaluated; distinct = distinct (message type, generation mode, relation); since rounds 13: string lengths around the steps of the length prefix mixed with short neighbours",
 		Assume: []string{"app-wiring module config files (*/module/v1/module.proto) exist only in the api/ family by SDK convention and are checked for presence there, not for two-family agreement", "gogoproto nullable=false / customtype fields are always emitted by the gogo family: byte identity pulsar->gogo is asserted on values that populate them, normalisation stability otherwise", "map fields: byte identity with <=1 entry"},
 		Cases:  func(t string) int { return tierN(t, 5, 33) },
 		Run:    runAPI,
